@@ -203,7 +203,13 @@ def job_wrapper(job, n, cols, cls, frame):
             obj = C(tab, pi)
         changed = _unchanged(tab, snap)
         f = obj.m_scaled_func
-        return obj, f(q1), f(q2), f(pi), obj.alpha(q), changed
+        # the harness' own lookup at p_i must not stand in for the constructor's range check: if the constructor accepted
+        # p_i and the transform cannot be evaluated there, that is recorded (fi = None), not treated as a rejection
+        try:
+            fi = f(pi)
+        except ValueError:
+            fi = None
+        return obj, f(q1), f(q2), fi, obj.alpha(q), changed
 
     res = paths(job, run, dom, catch=(ValueError,), max_paths=256)
     normal = 0
@@ -228,6 +234,8 @@ def job_wrapper(job, n, cols, cls, frame):
         job.prove(f"{tag}/reach[path{k}]", pr.pc, expect="sat")
         job.prove(f"{tag}/accepted only for p_i inside the table[path{k}]", pr.pc + [T.b_not(inside)], bound=f"{n} rows", replay=rp)
         job.prove(f"{tag}/m_scaled_func strictly increasing[path{k}]", pr.pc + [T.b_le(P(f2), P(f1))], bound=f"{n} rows", replay=rp)
+        if fi is None:
+            continue          # p_i outside the table on this path: reported by the obligation above
         job.prove(f"{tag}/m_i==m_scaled_func(p_i)[path{k}]", pr.pc + [not_close(obj.m_i, fi)], bound=f"{n} rows", replay=rp)
         al = obj.pvt_props["alpha"].d
         lo, hi = al[0], al[0]
